@@ -153,7 +153,7 @@ impl<'a> Env<'a> {
         };
         let mut d = DecompressorOxide::new();
         let s = DecSched::default();
-        let r = drive(&mut d, data, &DriveOpts { flags: zf, mode, sched: &s, canary: false, max_calls: None, announce: true, flat_start: 0 }, plain_hook)?;
+        let r = drive(&mut d, data, &DriveOpts { flags: zf, mode, sched: &s, canary: false, max_calls: None, announce: true, flat_start: 0, probe_full_ring: false }, plain_hook)?;
         if r.out_of_space {
             // an invalid stream can produce more than the reference did before its verdict (it may not)
             cx.class("skipped:flat-buffer-exhausted");
@@ -182,7 +182,7 @@ impl<'a> Env<'a> {
 
     fn compare(&self, s: &DecSched, what: &str, cx: &mut Ctx) -> Check {
         let mut d = DecompressorOxide::new();
-        let r = drive(&mut d, self.data, &DriveOpts { flags: self.zf, mode: self.mode, sched: s, canary: false, max_calls: None, announce: true, flat_start: 0 }, plain_hook)?;
+        let r = drive(&mut d, self.data, &DriveOpts { flags: self.zf, mode: self.mode, sched: s, canary: false, max_calls: None, announce: true, flat_start: 0, probe_full_ring: false }, plain_hook)?;
         cx.evals(1);
         let o = outcome(&r);
         if o != self.reference {
